@@ -69,6 +69,17 @@ def histories_check(chk, fails, stats):
         texts.append(c["script"])
     texts.append("vars { account $a }\nsend [USD 1] (source = $a destination = @b)\nset_tx_meta(\"k\", $zz)")
     texts.append("send [USD 1] (source = ")
+    # documents whose analysis gives several diagnostics, some of them on the very same range
+    texts += ["save [USD/2 10] from 1/0\n", "set_account_meta(99999999999999999999999, \"k\", 42)\n",
+              "send [USD *] (\n  source = { @a @world @a }\n  destination = @b\n)\n",
+              "vars { monetary $m monetary $m }\nsend $m + @a (source = $zz destination = $zz)\n"]
+    for i in range(6):
+        c, g = gen_check.valid_script(chk.seed + 303, i, {"stmts_max": 2, "depth": 2})
+        for fn in (gen_check.name_edit, gen_check.type_edit):
+            e = fn(c["script"], rng)
+            if e:
+                texts.append(e[0])
+        texts += gen_check.broken_variants(c["script"], rng, 1)
     histories = []
     # exhaustive short histories over a small alphabet
     alphabet = []
@@ -139,6 +150,14 @@ def histories_check(chk, fails, stats):
             fresh_idx[key] = len(fresh_jobs)
             fresh_jobs.append({"id": len(fresh_jobs), "op": "lsp", "history": reqs})
     fouts = runner.run_go(fresh_jobs)
+    # what a fresh ANALYSIS of each text gives (the library, not a server): range, severity, message
+    all_texts = sorted({t for plan in plans for (kind, uri, t, pos) in plan if t is not None and kind in ("open", "change")})
+    aouts = runner.run_go([{"id": i, "op": "analyze", "script": t} for i, t in enumerate(all_texts)])
+    analysis_of = {}
+    for t, ao in zip(all_texts, aouts):
+        if "diags" in ao and ao.get("messages") is not None and len(ao["messages"]) == len(ao["diags"]):
+            analysis_of[t] = sorted(json.dumps({"range": lsp_range(d[2]), "severity": int(d[1]), "message": msg}, sort_keys=True)
+                                    for d, msg in zip(ao["diags"], ao["messages"]))
     stats["evaluations"] += len(jobs)
     stats["fresh_sessions"] = len(fresh_jobs)
     nontriv = 0
@@ -167,6 +186,15 @@ def histories_check(chk, fails, stats):
                 want_n = [json.dumps(canon_notif(n), sort_keys=True) for n in fsteps[0].get("notifs", [])]
                 if got_n != want_n:
                     why.append("diagnostics published on %s differ from a fresh analysis of that text" % kind)
+                elif t in analysis_of:
+                    pub = []
+                    for n in step.get("notifs", []):
+                        if n.get("method") == "textDocument/publishDiagnostics" and (n.get("params") or {}).get("uri") == uri:
+                            pub = sorted(json.dumps({"range": d.get("range"), "severity": d.get("severity"), "message": d.get("message")}, sort_keys=True)
+                                         for d in (n["params"].get("diagnostics") or []))
+                    if pub != analysis_of[t]:
+                        why.append("diagnostics published on %s are not those the analysis of that text gives: published %d, analysis %d; first difference %s" % (
+                            kind, len(pub), len(analysis_of[t]), sorted(set(pub) ^ set(analysis_of[t]))[:2]))
             else:
                 if canon(step.get("result")) != canon(want.get("result")):
                     why.append("%s at %s: %s, fresh analysis of the latest text gives %s" % (
